@@ -1,6 +1,7 @@
 import SwcVerif.Proofs.Represent
 import SwcVerif.Props.C05
 import SwcVerif.Props.C09
+import SwcVerif.Proofs.Pipeline
 /-! # C03 — every tree operation returns a well-formed tree and leaves its inputs untouched
 
 The per-operation models (C05 sort, C06 subtree / prune, C07 re-root; geometric transforms, smoothing and
@@ -48,35 +49,61 @@ def sortsOutput : Op → Bool
 /-- a sorted table with root 0 and valid parents is well formed (every node reaches the root because parents
 are strictly smaller) -/
 theorem wf_of_sorted (pids : List Int) (h0 : pids.head? = some (-1)) (hs : Sorted pids)
-    (hv : ∀ k (h : k < pids.length), 0 < k → 0 ≤ pids[k]) : WF pids := by
-  sorry
+    (hv : ∀ k (h : k < pids.length), 0 < k → 0 ≤ pids[k]) : WF pids :=
+  Pipeline.wf_of_sorted pids h0 hs hv
 
 /-- **sorting a well-formed tree gives a well-formed, sorted tree** (C05 + the representation lemma) -/
 theorem sort_wf (pids : List Int) (hw : WF pids) :
     ∃ out, applyOp pids .sort = some out ∧ WF out ∧ Sorted out ∧ out.length = pids.length := by
-  sorry
+  obtain ⟨r, hr⟩ := Represent.wf_represented pids hw
+  have hT := Pipeline.isTreeTable_of r pids 0 hr.1 hr.2.1 (by simpa using hr.2.2.1) hw.root (fun v hv e => by
+    by_cases h0 : v = 0
+    · exact h0
+    · have := (hw.2.1 v hv (by omega)).1
+      omega)
+  obtain ⟨res, hres, hwf, hs, hl⟩ := Pipeline.sorted_wf r pids hT
+  refine ⟨res.newPids, ?_, hwf, hs, hl⟩
+  simp only [applyOp, hres]
 
 /-- **the subtree at any node is a well-formed, sorted tree** -/
 theorem subtree_wf (pids : List Int) (hw : WF pids) (k : Nat) (hk : k < pids.length) :
     ∃ out, applyOp pids (.subtree k) = some out ∧ WF out ∧ Sorted out := by
-  sorry
+  obtain ⟨s, hid, hrep, hin⟩ := Represent.wf_subtree_represented pids hw k hk
+  obtain ⟨res, hres, hhead, hrows⟩ := Pipeline.subtree_sorted pids s hrep hin
+  rw [hid] at hres
+  exact ⟨res.newPid, by simp [applyOp, hk, hres],
+    wf_of_sorted _ hhead (fun k hk h0 => (hrows k hk h0).2) (fun k hk h0 => (hrows k hk h0).1),
+    fun k hk h0 => (hrows k hk h0).2⟩
 
 /-- **pruning (any removal set that spares the root) gives a well-formed tree** -/
 theorem prune_wf (pids : List Int) (hw : WF pids) (rm : List Int) (hr : ∀ v ∈ rm, 0 < v ∧ v < pids.length) :
     ∃ out, applyOp pids (.prune rm) = some out ∧ WF out := by
-  sorry
+  obtain ⟨res, hres, hwf⟩ := Pipeline.prune_wf pids hw rm hr
+  have hall : rm.all (fun v => decide (0 < v) && decide (v < pids.length)) = true := by
+    rw [List.all_eq_true]
+    intro v hv
+    have := hr v hv
+    simp [this.1, this.2]
+  exact ⟨res.newPid, by simp only [applyOp, hall, if_true, hres, Option.map_some], hwf⟩
 
 /-- **re-rooting (with the final sort) gives a well-formed, sorted tree** -/
 theorem redirect_wf (pids : List Int) (hw : WF pids) (k : Nat) (hk : k < pids.length) :
     ∃ out, applyOp pids (.redirect k) = some out ∧ WF out ∧ Sorted out ∧ out.length = pids.length := by
-  sorry
+  have hlen := (C07.redirect_pids pids (List.replicate pids.length 0) hw k hk).1
+  have hwr := Pipeline.redirect_wfr pids (List.replicate pids.length 0) hw k hk
+  obtain ⟨res, hres, hwf, hs, hl⟩ := Pipeline.wfr_sorted _ k hwr
+  rw [hlen] at hres hl
+  refine ⟨res.newPids, ?_, hwf, hs, hl⟩
+  have hres' : sortNodesImpl ((List.range pids.length).map Int.ofNat)
+      (redirect pids (List.replicate pids.length 0) (k : Int)).pids = .ok res := hres
+  simp only [applyOp, hk, if_true, redirectSorted, hres', Option.map_some]
 
 /-- re-rooting with sorting switched off keeps every node at its position and makes the requested node the
 only parentless one (C07.redirect_root), i.e. the new root stays at its old position -/
 theorem redirect_nosort_root_position (pids types : List Int) (hw : WF pids) (k : Nat) (hk : k < pids.length) :
     (redirect pids types (k : Int)).pids.length = pids.length ∧
-    ∀ v, v < pids.length → ((redirect pids types (k : Int)).pids.getD v 0 = -1 ↔ v = k) := by
-  sorry
+    ∀ v, v < pids.length → ((redirect pids types (k : Int)).pids.getD v 0 = -1 ↔ v = k) :=
+  ⟨(C07.redirect_pids pids types hw k hk).1, fun v hv => C07.redirect_root pids types hw k hk v hv⟩
 
 /-- an operation is admissible on a tree when its arguments name nodes of that tree -/
 def Admissible (pids : List Int) : Op → Prop
@@ -89,7 +116,21 @@ def Admissible (pids : List Int) : Op → Prop
 sorted where documented -/
 theorem op_wf (pids : List Int) (hw : WF pids) (op : Op) (ha : Admissible pids op) :
     ∃ out, applyOp pids op = some out ∧ WF out ∧ (sortsOutput op = true → Sorted out) := by
-  sorry
+  cases op with
+  | sort =>
+    obtain ⟨out, h1, h2, h3, _⟩ := sort_wf pids hw
+    exact ⟨out, h1, h2, fun _ => h3⟩
+  | redirect k =>
+    obtain ⟨out, h1, h2, h3, _⟩ := redirect_wf pids hw k ha
+    exact ⟨out, h1, h2, fun _ => h3⟩
+  | subtree k =>
+    obtain ⟨out, h1, h2, h3⟩ := subtree_wf pids hw k ha
+    exact ⟨out, h1, h2, fun _ => h3⟩
+  | prune rm =>
+    obtain ⟨out, h1, h2⟩ := prune_wf pids hw rm ha
+    exact ⟨out, h1, h2, fun h => by simp [sortsOutput] at h⟩
+  | geometric => exact ⟨pids, rfl, hw, fun h => by simp [sortsOutput] at h⟩
+  | roundtrip => exact ⟨pids, rfl, hw, fun h => by simp [sortsOutput] at h⟩
 
 /-- run a pipeline, collecting every intermediate parent list (stops at the first failure) -/
 def runOps : List Int → List Op → List (List Int)
@@ -107,7 +148,16 @@ def AdmissibleAll : List Int → List Op → Prop
 result is a well-formed tree, and no step fails -/
 theorem pipeline_wf (pids : List Int) (hw : WF pids) (ops : List Op) (ha : AdmissibleAll pids ops) :
     (runOps pids ops).length = ops.length ∧ ∀ t ∈ runOps pids ops, WF t := by
-  sorry
+  induction ops generalizing pids with
+  | nil => simp [runOps]
+  | cons op ops ih =>
+    obtain ⟨hadm, hrest⟩ := ha
+    obtain ⟨out, h1, h2, _⟩ := op_wf pids hw op hadm
+    obtain ⟨i1, i2⟩ := ih out h2 (hrest out h1)
+    simp only [runOps, h1, List.length_cons, i1, List.mem_cons, true_and]
+    rintro t (rfl | ht)
+    · exact h2
+    · exact i2 t ht
 
 /-- **inputs are never modified and results share no storage** (heap level, C09): whatever operations run
 later on the copy an operation works on, every array of the original keeps its content -/
@@ -116,7 +166,8 @@ theorem inputs_untouched (h : Views.Heap) (hw : C09.WFHeap h) (o : Nat) (ho : o 
     let h1 := (Views.step h (.copy o)).1
     let h2 := (Views.run h1 later).1
     ∀ a, a < h.arrs.length → h2.arr a = h.arr a := by
-  sorry
+  intro h1 h2
+  exact Pipeline.copy_then_writes h hw o ho later hl
 
 -- non-vacuity / concrete behaviour
 def exP : List Int := [-1, 3, 0, 0, 3]
